@@ -3,6 +3,7 @@ package props
 import (
 	"encoding/json"
 	"fmt"
+	"sort"
 	"sync"
 
 	"github.com/gcash/bchutil/gcs"
@@ -289,6 +290,94 @@ func runC13(c *mc.Ctx) {
 						cases = append(cases, c13Case{Key: key, P: pm.P, M: pm.M, Items: items, Query: qs})
 					}
 				}
+			}
+		}
+	}
+	// Larger sets (N = 5..100) with structured queries: the member with the smallest / largest /
+	// a middle reduced value placed first, last and duplicated inside queries of every size around
+	// the MatchAny strategy switch (N/2), queries of non-members only, and queries whose smallest
+	// value is below every filter value.
+	for key := 0; key < 2; key++ {
+		for _, pm := range []c13PM{{19, 784931}, {2, 5}, {32, 1 << 32}, {0, 3}} {
+			for _, n := range mc.Pick(c, []int{5, 6, 8, 16, 33}, []int{5, 6, 7, 8, 9, 16, 17, 33, 100}) {
+				var items [][]byte
+				for i := 0; i < n; i++ {
+					items = append(items, []byte(fmt.Sprintf("m-%d", i)))
+				}
+				if n%2 == 0 {
+					items[n-1] = items[0] // a duplicate member (delta zero)
+				}
+				// order members by reduced value
+				type mv struct {
+					it []byte
+					v  uint64
+				}
+				var ms []mv
+				for _, it := range items {
+					ms = append(ms, mv{it, ref.GCSValue(c13Keys[key], uint32(n), pm.M, it)})
+				}
+				sort.Slice(ms, func(i, j int) bool { return ms[i].v < ms[j].v })
+				// non-members, sorted by value too
+				var nms []mv
+				for i := 0; len(nms) < 40; i++ {
+					it := []byte(fmt.Sprintf("x-%d", i))
+					v := ref.GCSValue(c13Keys[key], uint32(n), pm.M, it)
+					member := false
+					for _, m := range ms {
+						if m.v == v {
+							member = true
+						}
+					}
+					if !member {
+						nms = append(nms, mv{it, v})
+					}
+					if i > 5000 {
+						break
+					}
+				}
+				sort.Slice(nms, func(i, j int) bool { return nms[i].v < nms[j].v })
+				var itemHex []string
+				for _, it := range items {
+					itemHex = append(itemHex, mc.Hex(it))
+				}
+				targets := []mv{ms[0], ms[len(ms)-1], ms[len(ms)/2]}
+				for _, qn := range []int{1, 2, n/2 - 1, n / 2, n/2 + 1, n, n + 3} {
+					if qn < 1 {
+						continue
+					}
+					fill := func(k int) []mv { // k non-members, spread over the value range
+						var out []mv
+						for i := 0; i < k && len(nms) > 0; i++ {
+							out = append(out, nms[(i*7)%len(nms)])
+						}
+						return out
+					}
+					var queries [][]mv
+					queries = append(queries, fill(qn)) // non-members only
+					for _, t := range targets {
+						q := append([]mv{t}, fill(qn-1)...) // match first
+						queries = append(queries, q)
+						q2 := append(fill(qn-1), t) // match last
+						queries = append(queries, q2)
+						if qn >= 2 {
+							q3 := append(append([]mv{t}, fill(qn-2)...), t) // duplicate
+							queries = append(queries, q3)
+						}
+					}
+					if len(nms) > 0 { // smallest non-member first, then the largest member
+						queries = append(queries, append([]mv{nms[0]}, ms[len(ms)-1]))
+						queries = append(queries, append([]mv{nms[len(nms)-1]}, ms[0]))
+					}
+					for _, q := range queries {
+						var qs []string
+						for _, e := range q {
+							qs = append(qs, mc.Hex(e.it))
+						}
+						nontriv[len(cases)] = true
+						cases = append(cases, c13Case{Key: key, P: pm.P, M: pm.M, Items: itemHex, Query: qs})
+					}
+				}
+				cases = append(cases, c13Case{Key: key, P: pm.P, M: pm.M, Items: itemHex}) // member sweep (empty query)
 			}
 		}
 	}
